@@ -221,7 +221,8 @@ fn one_case(ctx: &mut Ctx, idx: usize, w: &World, w2: &World) {
     let amt_s = scalar_of_i64(amount);
     let rels: Vec<&str> = vec!["all-relations-hold", "state-channel-id", "close-state-channel-id", "close-tag", "old-revocation-lock", "new-revocation-locks-differ",
         "claimed-nonce", "customer-balance-state-vs-close", "merchant-balance-state-vs-close", "customer-balance-update", "merchant-balance-update",
-        "customer-range-link", "merchant-range-link", "customer-digit-signature", "token-tampered", "token-other-message", "customer-balance-negative", "merchant-balance-too-large", "customer-balance-too-large", "merchant-balance-negative"];
+        "customer-range-link", "merchant-range-link", "customer-digit-signature", "token-tampered", "token-other-message", "customer-balance-negative", "merchant-balance-too-large", "customer-balance-too-large", "merchant-balance-negative",
+        "new-states-on-another-channel", "balances-shifted-with-constant-total", "new-lock-equals-old-lock-everywhere", "close-tag-slot-swapped-with-nonce"];
     let pick: Vec<usize> = if ctx.thorough() { (0..rels.len()).collect() } else { (0..rels.len()).filter(|r| *r == 0 || r % 3 == idx % 3).collect() };
     for r in pick {
         let mut f = PayForge::honest(ctx, &old, &new, tok, ncb, nmb);
@@ -229,6 +230,24 @@ fn one_case(ctx: &mut Ctx, idx: usize, w: &World, w2: &World) {
         match rels[r] {
             "state-channel-id" => f.ms_s[0] += Scalar::one(),
             "close-state-channel-id" => { f.ms_c[0] += Scalar::one(); }
+            // both new messages consistently on another channel id: only the comparison with the token's id fails
+            "new-states-on-another-channel" => { let d = nonzero(&mut ctx.prng); f.ms_s[0] += d; f.ms_c[0] += d; }
+            // both balance updates off by +1 / -1 (total conserved), range constraints consistent with the shifted values
+            "balances-shifted-with-constant-total" => {
+                if ncb < i64::MAX as u64 && nmb > 0 {
+                    let g = PayForge::honest(ctx, &old, &new, tok, ncb + 1, nmb - 1);
+                    f.cb = g.cb; f.mb = g.mb;
+                    f.ts_tok[3] = g.ts_tok[3]; f.ts_s[3] = g.ts_s[3]; f.ts_c[3] = g.ts_c[3];
+                    f.ts_tok[4] = g.ts_tok[4]; f.ts_s[4] = g.ts_s[4]; f.ts_c[4] = g.ts_c[4];
+                    f.ms_s[3] += Scalar::one(); f.ms_c[3] += Scalar::one(); f.ms_s[4] -= Scalar::one(); f.ms_c[4] -= Scalar::one();
+                } else { continue; }
+            }
+            // the new state re-uses the old revocation lock (in both new messages): every equality holds, but the
+            // old lock is about to be revealed — the statement asks for a lock shared by state and close state only,
+            // so this assembly is VALID for the verifier (no freshness check exists on the merchant side) — skipped
+            "new-lock-equals-old-lock-everywhere" => { continue; }
+            // close tag in the state's nonce slot and vice versa
+            "close-tag-slot-swapped-with-nonce" => { let n = f.ms_s[1]; f.ms_s[1] = f.ms_c[1]; f.ms_c[1] = n; }
             "close-tag" => f.ms_c[1] = rand_scalar(&mut ctx.prng),
             "old-revocation-lock" => f.rl_m += Scalar::one(),
             "new-revocation-locks-differ" => f.ms_c[2] += Scalar::one(),
